@@ -19,6 +19,7 @@ import subprocess
 import sys
 import tempfile
 import time
+_real_time = time.time          # captured before the virtual wall clock is installed (runtime/vloop.py)
 import traceback
 
 from . import verdict
@@ -38,7 +39,7 @@ def run_shard(pid: str, tier: str, seed: int, shard: int, nshards: int) -> dict:
     harness.seed_entropy(seed * 1000 + shard)
     rng = random.Random(seed)
     harness.REACH.start()
-    deadline = time.time() + BUDGET[tier]
+    deadline = _real_time() + BUDGET[tier]
     try:
         if hasattr(mod, "setup"):
             mod.setup(ctx)
@@ -74,7 +75,7 @@ def run_shard(pid: str, tier: str, seed: int, shard: int, nshards: int) -> dict:
                 ctx.harness_errors.append(traceback.format_exc()[-1500:])
                 if len(ctx.harness_errors) > 20:
                     break
-            if time.time() > deadline:
+            if _real_time() > deadline:
                 ctx.inconclusive_because("wall-clock watchdog fired before the workload completed")
                 break
         ctx.current_case = None
@@ -102,7 +103,7 @@ def main(argv=None) -> int:
     args = ap.parse_args(argv)
     pid = args.pid.upper()
     seed = int(os.environ.get("VERIF_SEED", "0") or 0)
-    t0 = time.time()
+    t0 = _real_time()
 
     if args.replay:
         return replay(pid, args.replay)
@@ -176,7 +177,7 @@ def main(argv=None) -> int:
         "exhaustive_parts": getattr(mod, "EXHAUSTIVE", {}).get(args.tier, []),
         "extra": {"python_hash_seed": os.environ.get("PYTHONHASHSEED"), "repo": os.environ.get("MSMART_VERIF_REPO", "/repo")},
     }
-    return verdict.finalize(pid, mod.LEVEL, args.tier, seed, merged, meta, time.time() - t0,
+    return verdict.finalize(pid, mod.LEVEL, args.tier, seed, merged, meta, _real_time() - t0,
                             write_evidence=not args.no_evidence)
 
 
